@@ -327,7 +327,7 @@ def build(S):
     mk.silence_pyplot()
     S.under_contract(FN_METRIC, FN_GEOM2, FN_BETA, FN_ZSHIFT)
     S.trust("MeshRegion.DDX and calc_curvature are stubbed inside calcMetric (their own contracts: C06, C07)")
-    S.trust("calcHy stubbed inside geometry2 (contract C05: returns hy>0 or raises)")
+    S.assume("calcHy is stubbed inside geometry2's contract; its own contract (index maps at cells, faces, joins and boundaries) is discharged below")
     S.assume("A-ELEMENTWISE: numpy ufuncs and MultiLocationArray.__array_ufunc__ act element-by-element and location-by-location; calcMetric is run with one symbolic point per location (all four locations orthogonal, centre+ylow non-orthogonal), covering every index of every shape")
     S.assume("A-PURE: f_R, f_Z, psi, fpol, Bp_R, Bp_Z are deterministic pure functions (uninterpreted symbols per evaluation point)")
     S.assume("shiftedmetric=True (the only supported value: calcMetric raises otherwise), I=0")
@@ -340,9 +340,12 @@ def build(S):
         S.contract("geometry2[nonorthogonal]", FN_GEOM2, run_geometry2(False), shape="1x1")
         S.contract("calcBeta", FN_BETA, run_calcBeta, shape="nx=1, ny=1 (xlow 2x1, corners 2x2)")
         S.contract("calcZShift.integrand_func", FN_ZSHIFT, run_integrand(S), shape="scalar")
+        from . import C05
+
+        C05.add_hy(S)  # hy (hence g22, g33, g23, J, g_22, g_23) at every location, joins included
 
 
 def post(S):
     from bounded import gridrun
 
-    gridrun.run(S, ["metric_vs_displacements", "g23_vs_zshift", "zshift_halfcell"], FN_METRIC, name="measured displacements / stored zShift vs metric components on generated grids")
+    gridrun.run(S, ["metric_vs_displacements", "hy_ylow_vs_displacements", "g23_vs_zshift", "zshift_halfcell"], FN_METRIC, name="measured displacements / stored zShift vs metric components on generated grids")
